@@ -6,7 +6,9 @@ from . import i_lib
 class TimePattern(i_lib.TimePattern):
     HOURS_24 = set(range(0, 24))
     MINUTES_60 = set(range(0, 60))
-    REGEX_SPEC = r'(\*|\*\d|\d\*|\d\d?):(\d\d|\d\*|\*\d|\*)(?=(\s|$|[\[\](){}#]))'
+    # ASCII digits only: other decimal digits pass \d and int() but can never
+    # equal the text a time is compared with.
+    REGEX_SPEC = r'(\*|\*[0-9]|[0-9]\*|[0-9][0-9]?):([0-9][0-9]|[0-9]\*|\*[0-9]|\*)(?=(\s|$|[\[\](){}#]))'
     REGEX = re.compile(REGEX_SPEC)
 
     def __init__(self, hours, minutes):
